@@ -27,12 +27,18 @@ def gen_cases(ctx, names, n_cfg, profiles=None, scale=1):
     rng = ctx.rng
     out = []
     for name in names:
-        for cfg in se.grid(name, rng, n_cfg):
-            for prof in (profiles or se.PROFILES):
+        for ci, cfg in enumerate(se.grid(name, rng, n_cfg)):
+            big = se.BIG_PROFILES if (ci == 0 and name != "SSE2") else []     # SSE-2 tokens cost param_n PRP calls each
+            for prof in (profiles or (se.PROFILES + big)):
                 db = se.gen_db(name, cfg, rng, prof, scale)
                 c = se.finalize_cfg(name, cfg, db)
                 absent = se.absent_keywords(rng, name, c, db)
-                out.append(dict(name=name, cfg=c, db=db, present=list(db), absent=absent, profile=prof))
+                present = list(db)
+                if prof in se.BIG_PROFILES and len(present) > 12:
+                    # search a sample: the longest lists and a few others
+                    present = sorted(present, key=lambda w: -len(db[w]))[:4] + rng.sample(present, 8)
+                    present = list(dict.fromkeys(present))
+                out.append(dict(name=name, cfg=c, db=db, present=present, absent=absent, profile=prof))
     return out
 
 
